@@ -780,6 +780,43 @@ func checkLoops(c *Ctx) {
 		var helpers map[string]bool
 		if u.dir == "fc" {
 			helpers = verifyEOFHelpers(c, m)
+			// a hand-written predicate `func h(buf, pos, …) bool { return E }` whose E is false at the end of input
+			// (by the same evaluation, with pos at the bound) is end-of-input-false like the helpers it is made of
+			for round := 0; round < 2; round++ {
+				for _, file := range pkg.Syntax {
+					if core.IsGenerated(m.Fset.Position(file.Pos()).Filename) {
+						continue
+					}
+					for _, d := range file.Decls {
+						fd, ok := d.(*ast.FuncDecl)
+						if !ok || fd.Body == nil || fd.Recv != nil || len(fd.Body.List) != 1 || helpers[fd.Name.Name] {
+							continue
+						}
+						rs, ok := fd.Body.List[0].(*ast.ReturnStmt)
+						if !ok || len(rs.Results) != 1 {
+							continue
+						}
+						var params []*types.Var
+						for _, fl := range fd.Type.Params.List {
+							for _, nm := range fl.Names {
+								if v, ok := pkg.TypesInfo.Defs[nm].(*types.Var); ok {
+									params = append(params, v)
+								}
+							}
+						}
+						if len(params) < 2 {
+							continue
+						}
+						if b, ok := params[1].Type().Underlying().(*types.Basic); !ok || b.Info()&types.IsInteger == 0 {
+							continue
+						}
+						a := &loopAn{c: c, pkg: pkg, fset: m.Fset, fn: fd, eofFalse: helpers}
+						if a.evalEOF(rs.Results[0], params[1]) == triF {
+							helpers[fd.Name.Name] = true
+						}
+					}
+				}
+			}
 		}
 		for _, file := range pkg.Syntax {
 			fname := m.Fset.Position(file.Pos()).Filename
